@@ -85,6 +85,15 @@ def gen_cases(rng, tier):
                    "To: sip:bob@example.com\r\n"):
             for tag in ("ab%41c", "a.b-c_d~e", "1928301774", "-"):
                 cases.append(_case("to%d" % n, rel, [(700, 486, tag)], to)); n += 1
+    # bursts: many answers are in before the caller looks again (forks of a 2xx answering together, a late caller finding the final and
+    # its retransmissions waiting): every 2xx is handed over, every copy of the failure is ACKed - any number of them
+    for rel in (0, 1):
+        for k in (5, 7, 12):
+            for cid, arrs in (("bs", [(900, 200, "abcdefghijkl"[i]) for i in range(k)]), ("bf", [(900, 486, "a")] * k),
+                              ("bp", [(900, 180, "abcdefghijkl"[i]) for i in range(k)] + [(2000, 200, "a")])):
+                c = _case("%s%d" % (cid, n), rel, arrs, ROUTES[n % len(ROUTES)], sources=["d"] * len(arrs)); n += 1
+                c[4] = ",".join("%d:%d:%s" % a for a in arrs)       # one instant: the harness injects them without letting anybody run in between
+                cases.append(c)
     nrand = 60 if tier == "quick" else 2000
     for i in range(nrand):
         rel = rng.choice([0, 1])
